@@ -395,6 +395,40 @@ func runSim(rng *rand.Rand, tier string, k int) Case {
 			}
 		}
 	}
+	// teardown: the Trials are deleted (by the user, or because their Experiment was) while the trial controller still
+	// runs; no experiment reconcile follows, so nothing is re-created.  Faults stay possible: the metrics database may be
+	// down exactly when the finalizer wants to clean up.
+	if rng.Intn(2) == 0 {
+		c.tags["teardown-trials-deleted"] = true
+		for _, g := range cfgs {
+			ts := []trialsv1beta1.Trial{}
+			for _, t := range c.trials(g.ns) {
+				if t.Labels["katib.kubeflow.org/experiment"] == g.name {
+					ts = append(ts, t)
+				}
+			}
+			for _, t := range ts {
+				if rng.Intn(4) == 0 {
+					continue
+				}
+				r := c.s.userDelete(t.Namespace, t.Name)
+				c.emit(fmt.Sprintf("SIM userDelete %s %s", t.Namespace, t.Name), "ok="+b01(r))
+				for k := 0; k < 1+rng.Intn(3); k++ {
+					// bit 0: the database call fails; bit 1: the finalizer write fails
+					f := uint64([]int{0, 1, 1, 2, 3}[rng.Intn(5)])
+					if f != 0 {
+						c.tags["teardown-fault"] = true
+					}
+					v := c.views(0)
+					out := c.s.recTrial(t.Namespace, t.Name, v, f, -1)
+					c.emit(fmt.Sprintf("SIM recTrial %s %s %d %d %s", t.Namespace, t.Name, c.s.view[kTrial], f, abortTok(-1)), out)
+				}
+			}
+			for _, t := range ts {
+				c.recTrial(t.Namespace, t.Name, false, 0)
+			}
+		}
+	}
 	tags := []string{}
 	for t := range c.tags {
 		tags = append(tags, t)
